@@ -2,6 +2,7 @@ package sim
 
 import (
 	"fmt"
+	"sort"
 	"strings"
 	"time"
 )
@@ -58,7 +59,79 @@ func lastInstant(obs *RevObs, co *CallObs) time.Time {
 			t = f.TEnd
 		}
 	}
+	// a request beyond the planned attempts (a retry) is answered at once
+	for _, u := range obs.Net.Unplanned {
+		if same[u.Caller] && u.T.After(t) {
+			t = u.T
+		}
+	}
 	return t
+}
+
+// idleBudget is how long a call may sit with nothing in flight (no exchange, no
+// fetch, no cache operation of its own or of an overlapping caller of the same
+// chain) before it counts as blocked "although the transport has answered". A
+// short, bounded pause between two attempts is not a hang; waiting for an
+// instant a server named is.
+const idleBudget = 30 * time.Second
+
+// idleGap returns the longest stretch of the call during which nothing it
+// could be waiting for was in flight.
+func idleGap(obs *RevObs, co *CallObs) (time.Duration, time.Time) {
+	type iv struct{ a, b time.Time }
+	var ivs []iv
+	same := map[int]bool{co.World.callerKeyOf(co.Rep): true}
+	for r := 0; r < co.World.Reps; r++ {
+		same[co.World.callerKeyOf(r)] = true
+	}
+	for _, x := range obs.Net.All() {
+		if !x.Rec.Begun {
+			continue
+		}
+		if !same[x.Rec.CallerID] {
+			continue
+		}
+		if co.World.Entry != EValidateContext && !strings.HasSuffix(hostOf(x.URL), fmt.Sprintf(".w%d.sim", co.World.ID)) && hostOf(x.URL) != "redirect.sim" {
+			continue
+		}
+		e := exchangeEnd(x, obs)
+		if !x.Rec.Returned || (x.Rec.Outcome == "response" && !x.Rec.BodyEnd && x.Rec.TClosed.IsZero()) {
+			e = obs.TEnd
+		}
+		ivs = append(ivs, iv{x.Rec.TBegin, e})
+	}
+	for _, f := range obs.Fetches {
+		if same[f.Caller] {
+			e := f.TEnd
+			if !f.Done {
+				e = obs.TEnd
+			}
+			ivs = append(ivs, iv{f.TBegin, e})
+		}
+	}
+	for _, u := range obs.Net.Unplanned {
+		if same[u.Caller] {
+			ivs = append(ivs, iv{u.T, u.T})
+		}
+	}
+	sort.Slice(ivs, func(i, j int) bool { return ivs[i].a.Before(ivs[j].a) })
+	cur := co.TStart
+	var best time.Duration
+	var at time.Time
+	for _, v := range ivs {
+		if v.a.After(co.TReturn) {
+			break
+		}
+		if v.a.After(cur) {
+			if g := v.a.Sub(cur); g > best {
+				best, at = g, cur
+			}
+		}
+		if v.b.After(cur) {
+			cur = v.b
+		}
+	}
+	return best, at
 }
 
 // evalLiveness applies the hang / leak / bounded-read rules. prefix is the
@@ -84,6 +157,9 @@ func (sc *RevScenario) evalLiveness(rc *ruleCtx, obs *RevObs, leakRule, readRule
 			if co.TReturn.After(tc) {
 				rc.fail(leakRule, "blocked_after_cancel", fmt.Sprintf("caller %d.%d: the context was cancelled at %s but the call only returned at %s", co.World.ID, co.Rep, rel(tc), rel(co.TReturn)))
 			}
+		}
+		if gap, at := idleGap(obs, co); gap > idleBudget {
+			rc.fail(leakRule, "idle_with_nothing_in_flight", fmt.Sprintf("caller %d.%d: from %s on the call sat idle for %s although every server had answered and nothing was in flight", co.World.ID, co.Rep, rel(at), gap))
 		}
 		li := lastInstant(obs, co)
 		if co.TReturn.After(li) {
